@@ -833,6 +833,7 @@ def run_custom(chk, C, t, pos, sup, cc_cache, kcoll):
     # ---- correspondence and round trip with the probed flags
     reqs, meta = [], []
     reactors = {}
+    kept = {}
     for pv, tn, e in vers:
         if pv not in flags_of:
             continue
@@ -844,12 +845,33 @@ def run_custom(chk, C, t, pos, sup, cc_cache, kcoll):
             case = {'proto': pv, 'class': C.name, 'flags': fl, 'spec': repr(a)[:700]}
             try:
                 p = C.build(cls, ctx, a, fl)
+                given = {k: v for k, v in vars(p).items() if k != 'context'}           # the fields as the caller assigned them
                 bi = write_fields(p)
             except Exception as ex:
                 if C.which == 2 and fl[0]:
                     continue          # removed packet: raising is its documented behaviour
                 chk.violation('custom', 'custom:%s:%d:write' % (C.name, pv), dict(case=case, observed=repr(ex)[:200]),
                               '%s at protocol %d: write_fields raised %s on wire-representable values' % (C.name.split(':')[-1], pv, exn_name(ex)))
+                continue
+            # one packet object kept per version and written again and again with the fields of each spec in turn (fields the new
+            # spec leaves unassigned are removed): every write is that of a fresh object with the same fields
+            if pv not in kept:
+                kept[pv] = (cls(context=ctx), set())
+            obj, ours = kept[pv]
+            for k in ours - set(given):
+                if k in vars(obj):
+                    delattr(obj, k)
+            for k, v in given.items():
+                setattr(obj, k, v)
+            kept[pv] = (obj, set(given))
+            try:
+                again = write_fields(obj)
+            except Exception as ex:
+                again = 'raised ' + exn_name(ex)
+            if again != bi:
+                chk.violation('custom', 'custom:%s:%d:reused-object' % (C.name, pv), dict(case=case, expected=bi.hex()[:300], observed=again.hex()[:300] if isinstance(again, bytes) else again),
+                              '%s at protocol %d: a packet object written before with other field values writes %s; a fresh object with the same fields writes %s' % (
+                                  C.name.split(':')[-1], pv, again.hex()[:60] if isinstance(again, bytes) else again, bi.hex()[:60]))
                 continue
             w = impl_roundtrip(C, cls, ctx, a, fl)
             if w is None:
